@@ -306,7 +306,7 @@ def overwrite(ctx, obs, rule='OVERWRITE'):
             obs.check(isinstance(a, ast.Name) and a.id == 'filename', rule, q, 'the file removed is the target file',
                       f'`{norm(c.node)}`', '', where(prog, f, c.node))
             for w in wr:
-                obs.check(c.node.lineno < w.node.lineno, rule, q, 'removal precedes writing', 'the file is removed after it was '
+                obs.check(_before(f.node, c.node, w.node), rule, q, 'removal precedes writing', 'the file is removed after it was '
                           'written', '', where(prog, f, w.node))
         kinds = {}
         for n in ast.walk(f.node):
@@ -407,6 +407,12 @@ def codec(ctx, obs, rule='CODEC'):
     uses = [c for c in ast.walk(rf.node) if isinstance(c, ast.Call) and _leaf(c.func) == 'dict_to_list']
     obs.check(len(uses) >= 2, rule, 'rdm.rdms.rdms_from_dict', 'rdm and pattern descriptors pass through dict_to_list on load',
               f'{len(uses)} uses', '', where(prog, rf, rf.node))
+
+
+def _before(root, a, b) -> bool:
+    from ..rules.common import source_order
+    o = source_order(root)
+    return o.get(id(a), 0) < o.get(id(b), 0)
 
 
 def _delegates(ctx, q):
